@@ -121,6 +121,20 @@ CHECKS = {
             "Sampled 1D/2D/3D networks x 14 defect kinds x blunders on every observation kind x tol-abs in {10,1000,1e5} "
             "x 4 algorithms; exploration.",
             "DESIGN.md §2 C14", TRUST),
+    "C11": ("sanitizer monitor over generated hostile workloads: the GKF parser, DataParser and the adjustment-result "
+            "readers driven in-process (parsedrv, ASan/UBSan) and the real gama-local binary, with grammar-derived valid "
+            "documents, bounded-exhaustive tag-event sequences judged by the XSD content model, truncation at every byte, "
+            "byte/token/element mutations, exhaustive short numeric literals per attribute slot, every chunking of a "
+            "document vs one-shot parsing, random command lines; libFuzzer (clang) with a committed corpus finds further "
+            "inputs that are re-judged on the sanitized binaries; thorough adds a valgrind memcheck sample",
+            "Refuting events: sanitizer report, abnormal termination, reproducible watchdog overrun on a small input, "
+            "parse-stage refusal without a line, refusal of a document of the documented grammar, silent acceptance of a "
+            "clear-cut invalid document (recorded-but-unthrown parser error, lexically invalid number, missing mandatory "
+            "attribute, misplaced element, cov-mat dimension), chunk-dependent outcome. All tag sequences up to length 4 "
+            "(194 040) are exhaustive, everything else is sampled by count; termination is bounded progress only: "
+            "exploration.",
+            "DESIGN.md §2 C11", TRUST + " For C11 additionally: clang 14 libFuzzer (inputs only; verdicts come from the "
+            "gcc-sanitized binaries), valgrind memcheck, python's expat as the independent well-formedness/structure reader."),
 }
 
 NOT_APPLICABLE = {}
